@@ -50,10 +50,12 @@ PINFO = {'charge': ((), 'f', False), 'm_id': ((), 'i', True), 'mu': ((3,), 'f', 
          'e_id': ((), 'i', True), 'cs_re': ((), 'f', False), 'cs_im': ((), 'f', False), 'velocity': ((3,), 'f', False),
          'eradial_velocity': ((), 'f', False), 'ang_momentum': ((3,), 'f', False), 'ang_velocity': ((3,), 'f', False),
          'force': ((3,), 'f', False), 'stress': ((3, 3), 'f', False), 'tag': ((), 'i', True), 'pe': ((), 'f', False),
-         'disp': ((3,), 'f', False), 'radius': ((), 'f', True), 'torque': ((3,), 'f', False)}
-TABLE_UNITS = {'charge': ['e', 'C', None], 'velocity': ['angstrom/ps', 'm/s', None], 'force': ['eV/angstrom', 'nN', None],
+         'disp': ((3,), 'f', False), 'radius': ((), 'f', True), 'torque': ((3,), 'f', False),
+         # per-atom shapes with exactly one element that are not scalars
+         'single': ((1,), 'f', False), 'cell11': ((1, 1), 'f', False)}
+TABLE_UNITS = {'charge': ['e', 'C', 'C', '1e-3*C', None], 'velocity': ['angstrom/ps', 'm/s', None], 'force': ['eV/angstrom', 'nN', None],
                'stress': ['GPa', 'bar', None], 'pe': ['eV', 'kJ/mol', None], 'disp': ['angstrom', 'nm', 'scaled', None],
-               'tag': [None], 'mass': ['amu', 'g/mol']}
+               'tag': [None], 'mass': ['amu', 'g/mol'], 'single': [None], 'cell11': [None]}
 SYMS = ['Al', 'Cu', 'Fe', 'Ni', 'Mg']
 TITLES = ['LAMMPS data file written by a test', '# comment title', 'title with 3 words', '   ', 'cell (generated)']
 
@@ -74,7 +76,7 @@ class ChannelEngine(Engine):
                        'loss_natoms', 'loss_bounds', 'loss_atoms_section', 'loss_atoms_section_velocities_kept', 'stream_source', 'short_read_source', 'path_source',
                        'imageflags_written', 'tilted_cell', 'nonperiodic_dims', 'gapped_types', 'random_epoch',
                        'compared_cells_above_resolution', 'chained_transfer', 'poscar_cartesian', 'poscar_box_scale',
-                       'dump_scaled_columns', 'writer_prop_info_used', 'dest_path', 'dest_stream', 'table_with_id', 'io_error_load_raised']
+                       'dump_scaled_columns', 'writer_prop_info_used', 'dest_path', 'dest_stream', 'table_with_id', 'io_error_load_raised', 'dump_two_position_forms', 'integer_typed_float_property']
     rule = ('Each run draws a working-unit epoch (atomman default or seeded random, so that unit-column mix-ups cannot hide behind '
             'factors of one) and performs up to 8 transfers. A transfer builds a system (or reuses the system loaded by the previous '
             'transfer): LAMMPS-compatible cell, orthogonal or tilted, any origin, 1-40 atoms inside / outside / on faces, 1-4 types '
@@ -160,6 +162,8 @@ class ChannelEngine(Engine):
             cnt = n * (int(np.prod(ts)) if ts else 1)
             if cls == 'i':
                 pv[nm] = [r.randint(0 if not positive else 1, 9) for _ in range(cnt)]
+            elif nm == 'charge' and r.random() < (0.6 if fmt_style in ('table', 'atom_dump') else 0.25):
+                pv[nm] = [r.randint(-3, 3) for _ in range(cnt)]         # whole charges: the array the caller builds is integer typed
             elif positive:
                 pv[nm] = [r.uniform(0.2, 5.0) for _ in range(cnt)]
             else:
@@ -226,12 +230,12 @@ class ChannelEngine(Engine):
                       natypes_extra=r.choice([0, 0, 1]))
             props = need
         elif style == 'atom_dump':
-            extra = r.sample(['charge', 'velocity', 'force', 'stress', 'tag', 'pe', 'm_id', 'mu', 'radius', 'torque'], r.randint(0, 4))
-            op.update(units=r.choice(UNIT_STYLES[:-1]), posvar=r.choice(['pos', 'pos', 'spos', 'upos', 'supos', 'default']),
+            extra = r.sample(['charge', 'velocity', 'force', 'stress', 'tag', 'pe', 'm_id', 'mu', 'radius', 'torque', 'single', 'cell11'], r.randint(0, 4))
+            op.update(units=r.choice(UNIT_STYLES[:-1]), posvar=r.choice(['pos', 'pos', 'spos', 'upos', 'supos', 'default', 'pos+upos', 'upos+pos', 'spos+pos', 'pos+supos']),
                       use_prop_info=r.random() < 0.5, own_ids=r.random() < 0.3)
             props = extra
         elif style == 'table':
-            extra = r.sample(['charge', 'velocity', 'force', 'stress', 'tag', 'pe', 'disp'], r.randint(0, 4))
+            extra = r.sample(['charge', 'velocity', 'force', 'stress', 'tag', 'pe', 'disp', 'single', 'cell11'], r.randint(0, 4))
             op.update(header=r.random() < 0.5, with_id=r.random() < 0.6,
                       tunits={nm: r.choice(TABLE_UNITS[nm]) for nm in sorted(extra)}, pos_unit=r.choice(['angstrom', 'nm', None, 'scaled']))
             props = extra
@@ -274,7 +278,11 @@ class ChannelEngine(Engine):
         for nm, vals in sorted(spec['props'].items()):
             ts, cls, _ = PINFO[nm]
             arr = np.array(vals).reshape((n,) + ts)
-            if cls == 'f':
+            if cls == 'f' and nm == 'charge' and arr.dtype.kind == 'i':
+                # whole charges in working units, in the integer-typed array a caller gets from np.array([3, -1, 2])
+                arr = arr.astype(int)
+                ctx.probe('integer_typed_float_property')
+            elif cls == 'f':
                 unit = (tunits or {}).get(nm, None) if tunits is not None else self._unit_of(nm, style_units)
                 if unit == 'scaled':
                     unit = 'angstrom'
@@ -359,6 +367,12 @@ class ChannelEngine(Engine):
             ctx.probe('short_read_source')
             ctx.fault('short_read_source')
         return obj, closer
+
+    @staticmethod
+    def _kappa(V):
+        """Rounding of a Cartesian -> box-relative -> Cartesian trip grows with the condition number of the cell
+        (rel = (x - o) V^-1 loses eps*|x - o|*|V^-1|, multiplying back by V gives eps*(|x|+|o|)*cond(V))."""
+        return max(1.0, float(np.linalg.cond(np.asarray(V, dtype=float))))
 
     def _io_failed(self, ctx, st, ok):
         """True when the reader's stream raised EIO during this load and the load failed: a load may fail on a disk
@@ -598,13 +612,16 @@ class ChannelEngine(Engine):
         posvar = op['posvar']
         kw = {'lammps_units': units, 'float_format': fmt, 'return_prop_info': True}
         if posvar != 'default':
-            kw['prop_name'] = ['atom_id', 'atype', posvar] + names
+            kw['prop_name'] = ['atom_id', 'atype'] + posvar.split('+') + names
+            if '+' in posvar:
+                ctx.probe('dump_two_position_forms')
+        lastvar = posvar.split('+')[-1]
         if op.get('own_ids') and 'atom_id' not in cur['props']:
             pass
         text, pinfo = self._write(ctx, st, system, 'atom_dump', op, kw)
         if isinstance(pinfo, tuple):
             pinfo = pinfo[0]
-        if posvar in ('spos', 'supos'):
+        if 'spos' in posvar or 'supos' in posvar:
             ctx.probe('dump_scaled_columns')
         V, o = cur['V'], cur['origin']
         if V[1, 0] != 0 or V[2, 0] != 0 or V[2, 1] != 0:
@@ -645,11 +662,11 @@ class ChannelEngine(Engine):
         u_box = float(np.max(self._u(fmt, bnd))) * Lw
         box_tol = SAFETY * 4 * u_box + 64 * EPS * float(bnd.max()) * Lw
         self._check_common(ctx, cur, got, klass, box_tol, lkw.get('symbols'), cur['pbc'], V, o)
-        if posvar in ('spos', 'supos'):
+        if lastvar in ('spos', 'supos'):
             rel = geom.cart_to_rel(V, o, cur['pos'])
             u_s = self._u(fmt, rel)
             colsum = np.abs(V).sum(axis=0)[None, :]
-            pos_tol = SAFETY * (u_s.max(axis=1)[:, None] * colsum + 4 * u_box * (np.abs(rel).sum(axis=1)[:, None] + 1)) + 64 * EPS * (np.abs(cur['pos']) + colsum)
+            pos_tol = SAFETY * (u_s.max(axis=1)[:, None] * colsum + 4 * u_box * (np.abs(rel).sum(axis=1)[:, None] + 1)) + 64 * EPS * self._kappa(V) * (np.abs(cur['pos']) + colsum + float(np.abs(o).max()))
         else:
             u_p = self._u(fmt, cur['pos'] / Lw) * Lw
             pos_tol = SAFETY * u_p + 32 * EPS * np.abs(cur['pos'])
@@ -728,7 +745,7 @@ class ChannelEngine(Engine):
             rel = geom.cart_to_rel(V, o, cur['pos'])
             u_s = self._u(fmt, rel)
             colsum = np.abs(V).sum(axis=0)[None, :]
-            pos_tol = SAFETY * u_s.max(axis=1)[:, None] * colsum + 64 * EPS * (np.abs(cur['pos']) + colsum)
+            pos_tol = SAFETY * u_s.max(axis=1)[:, None] * colsum + 64 * EPS * self._kappa(V) * (np.abs(cur['pos']) + colsum + float(np.abs(o).max()))
         else:
             Uw = W(pu, st['base'])
             u_p = self._u(fmt, cur['pos'] / Uw) * Uw
@@ -742,7 +759,7 @@ class ChannelEngine(Engine):
                 rel = geom.cart_to_rel(V, o, w)
                 u_s = self._u(fmt, rel)
                 colsum = np.abs(V).sum(axis=0)[None, :]
-                tol = SAFETY * u_s.max(axis=1)[:, None] * colsum + 64 * EPS * (np.abs(w) + colsum + float(np.abs(o).max()))
+                tol = SAFETY * u_s.max(axis=1)[:, None] * colsum + 64 * EPS * self._kappa(V) * (np.abs(w) + colsum + float(np.abs(o).max()))
                 self._cmp_float(ctx, 'property ' + nm, got.atoms.view[nm], w, tol, 'C08.L5', 'prop/%s/%s/scaled' % (nm, klass))
             else:
                 self._cmp_prop(ctx, st, nm, got, cur, u, fmt, klass)
@@ -817,7 +834,7 @@ class ChannelEngine(Engine):
             u_s = self._u(fmt, rel)
             colsum = np.abs(V).sum(axis=0)[None, :]
             pos_tol = (SAFETY * (u_s.max(axis=1)[:, None] * colsum + float(np.max(box_tol)) * (np.abs(rel).sum(axis=1)[:, None] + 1))
-                       + 64 * EPS * (np.abs(want['pos']) + colsum))
+                       + 64 * EPS * self._kappa(V) * (np.abs(want['pos']) + colsum))
         self._cmp_float(ctx, 'positions', got.atoms.view['pos'], want['pos'], pos_tol, 'C08.L4', 'pos/' + klass, {'fmt': fmt, 'coord': op['coord']})
         if wrote_symbols is not None:
             gs = list(got.symbols)
